@@ -157,10 +157,10 @@ theorem flattened_core : ∀ l : SaExpr, Core l = true → WG l = true →
   | .false_, hc, hw => ⟨by intro c h; simp [flattened] at h; subst h; exact ⟨hc, hw⟩, by simp [flattened]⟩
   | .unary _ _ _, hc, hw => ⟨by intro c h; simp [flattened] at h; subst h; exact ⟨hc, hw⟩, by simp [flattened]⟩
   | .asbool _ _ _, hc, _ => by simp [Core] at hc
-  | .case_ _ _ _ _, hc, _ => by simp [Core] at hc
-  | .cast _ _, hc, _ => by simp [Core] at hc
-  | .func _ _ _, hc, _ => by simp [Core] at hc
-  | .subq _ _, hc, _ => by simp [Core] at hc
+  | .case_ _ _ _ _, hc, hw => ⟨by intro c h; simp [flattened] at h; subst h; exact ⟨hc, hw⟩, by simp [flattened]⟩
+  | .cast _ _, hc, hw => ⟨by intro c h; simp [flattened] at h; subst h; exact ⟨hc, hw⟩, by simp [flattened]⟩
+  | .func _ _ _, hc, hw => ⟨by intro c h; simp [flattened] at h; subst h; exact ⟨hc, hw⟩, by simp [flattened]⟩
+  | .subq _ _, hc, hw => ⟨by intro c h; simp [flattened] at h; subst h; exact ⟨hc, hw⟩, by simp [flattened]⟩
   | .inlist _ _ _, hc, _ => by simp [Core] at hc
   | .inrows _ _ _, hc, _ => by simp [Core] at hc
   | .tuple_ _, hc, _ => by simp [Core] at hc
@@ -478,10 +478,10 @@ theorem flattened_not_grouped (op : Op) (hop : coreList op = true) :
   | .true_, _, _, ho => by simp [operatorOf] at ho
   | .false_, _, _, ho => by simp [operatorOf] at ho
   | .asbool _ _ _, hc, _, _ => by simp [Core] at hc
-  | .case_ _ _ _ _, hc, _, _ => by simp [Core] at hc
-  | .cast _ _, hc, _, _ => by simp [Core] at hc
-  | .func _ _ _, hc, _, _ => by simp [Core] at hc
-  | .subq _ _, hc, _, _ => by simp [Core] at hc
+  | .case_ _ _ _ _, _, _, ho => by simp [operatorOf] at ho
+  | .cast _ _, _, _, ho => by simp [operatorOf] at ho
+  | .func _ _ _, _, _, ho => by simp [operatorOf] at ho
+  | .subq _ _, _, _, ho => by simp [operatorOf] at ho
   | .inlist _ _ _, hc, _, _ => by simp [Core] at hc
   | .inrows _ _ _, hc, _, _ => by simp [Core] at hc
   | .tuple_ _, hc, _, _ => by simp [Core] at hc
